@@ -370,4 +370,8 @@ def run(chk, ctx):
     r3(chk, ctx)
     r4(chk, ctx)
     r5(chk, ctx)
+    from . import round3
+    round3.validator_stateless(chk, ctx)
+    round3.drop_arm_acks_directly(chk, ctx)
+    round3.validator_hashless(chk, ctx)
     chk.assume("JSON object keys are strings; the 12 JSON kinds enumerate every value json.loads can produce")
